@@ -134,6 +134,13 @@ def c17() -> int:
         ("hivemc.bundles", "c17_builtin", {}), K=3, H=H + 6, needs=["c17:vehicle_under_way_at_step_boundary"])
     fsx(c, REQ + ({"dispatcher": True, "cancel": 600, "dispatch_states": ["idle", "repositioning", "dispatchtrip"], "requests": ["r0", "r3", "r5"], "name": "W-req+dispatcher/rematch"},),
         ("hivemc.bundles", "c17", {}), K=K, H=H)
+    # a human driver whose shift ends while under way to a request and who has nowhere to go home to (no plug at home, no station)
+    for k in (1, 2):
+        fsx(c, REQ + ({"dispatcher": True, "controller": False, "cancel": 600, "human_shift": k, "low": False, "requests": ["r0", "r6"], "name": f"W-req/dispatcher-only/shift-ends-after-{k}"},),
+            ("hivemc.bundles", "c17_builtin", {}), K=2, H=H + 2, needs=["c17:vehicle_under_way_at_step_boundary"])
+    fsx(c, REQ + ({"human_shift": 2, "requests": ["r0", "r6"], "name": "W-req/shift-ends"},), ("hivemc.bundles", "c17", {}), K=K, H=H)
+    # a vehicle with idle draw that one idle step empties: it stands Idle with exactly 0 energy for one step
+    fsx(c, REQ + ({"drain": True, "name": "W-req/drain"},), ("hivemc.bundles", "c17", {}), K=K, H=H - 2 if quick else H, needs=["instr:Idle:DispatchTrip:OutOfService"])
     auto_worlds(c, "c17", quick)
     return c.finish()
 
